@@ -10,11 +10,29 @@
  * PR_CONTAINER (the scheduler's vector), so that contracts can speak about "the entry the returned promise came from".
  * Required: type PROM (promise<void>), SPB (suspend_point<bool>); optional macro PR_CONTAINER_RECORD(src).  Trusted base. */
 #define PR_OWN(p) (*(void **)&(p)->_owner)
-void *gh_W;                                            /* the watched future (arbitrary)                          */
-unsigned gh_W_dropped, gh_W_val, gh_W_exc; void *gh_W_excobj;   /* how often / how the watched future was completed */
-unsigned gh_pr_n_dropped, gh_pr_n_val, gh_pr_n_exc;    /* totals                                                   */
-void *gh_pr_last_own, *gh_pr_last_excobj;              /* most recent resolution with an exception                 */
-cv_i32 gh_pr_sp_cf; cv_i8 *gh_pr_sp_h0;                /* the suspend point handed back by the most recent resolution */
+void *gh_W;                                            /* the watched future (arbitrary; logical variable, never assigned) */
+struct pr_model {
+  unsigned W_dropped, W_val, W_exc; void *W_excobj;    /* how often / how the watched future was completed        */
+  unsigned n_dropped, n_val, n_exc;                    /* totals                                                   */
+  void *last_own, *last_excobj;                        /* most recent resolution with an exception                 */
+  cv_i32 sp_cf; cv_i8 *sp_h0;                          /* the suspend point handed back by the most recent resolution */
+  cv_s64 mv_tp; void *mv_own; cv_i8 *mv_id;            /* container element the most recent promise was moved out of (PR_CONTAINER_RECORD) */
+} pm;
+#define gh_W_dropped pm.W_dropped
+#define gh_W_val pm.W_val
+#define gh_W_exc pm.W_exc
+#define gh_W_excobj pm.W_excobj
+#define gh_pr_n_dropped pm.n_dropped
+#define gh_pr_n_val pm.n_val
+#define gh_pr_n_exc pm.n_exc
+#define gh_pr_last_own pm.last_own
+#define gh_pr_last_excobj pm.last_excobj
+#define gh_pr_sp_cf pm.sp_cf
+#define gh_pr_sp_h0 pm.sp_h0
+#define gh_mv_tp pm.mv_tp
+#define gh_mv_own pm.mv_own
+#define gh_mv_id pm.mv_id
+#define PR_MODEL_ASSIGNS __CPROVER_object_whole(&pm)
 #ifndef PR_CONTAINER_RECORD
 #define PR_CONTAINER_RECORD(src)
 #endif
